@@ -58,6 +58,7 @@ var Prop = &engine.Prop{
 		{Name: "lifetime", Quick: 5000, Thorough: 600000, Fn: lifetimeCase},
 		{Name: "codes", Quick: 24, Thorough: 2880, Fn: codesCase},
 		{Name: "nonce", Quick: 300, Thorough: 36000, Fn: nonceCase},
+		{Name: "delivery-failure", Quick: 6000, Thorough: 300000, Fn: deliveryFailCase},
 	},
 	Floors: map[string]int64{
 		"verify_right_accepted":              500,
